@@ -1,6 +1,7 @@
 import Ctap.Decode
 import Ctap.Request
 import Ctap.Frame
+import Ctap.AuthData
 import Props.GenTables
 import Spec
 /-
@@ -104,8 +105,8 @@ structure Source where
   respRoles : Cfg → List (String × Ty)
   adExtRoles : Cfg → List (String × Ty)
   reqTables : Cfg → ReqTables
-  respHasBody : String → Option Bool
-  statusSerializeError : Nat
+  respCase : Cfg → String → Val → Nat → List Byte → String
+  adatCase : Cfg → String → List Byte → Nat → Nat → Option (Option Acd) → Option Val → String
   tables : String → Option (List (String × Nat))
   controlByte : Nat → Option Nat      -- byte → variant index
   controlNames : List (String × Nat)
@@ -143,10 +144,60 @@ def specOpCase (b : Nat) : String :=
 
 def specVopCase (b : Nat) : String := if 0x40 ≤ b ∧ b ≤ 0x7F then s!"ok {b}" else "err"
 
+def showOutcome : Outcome (List Byte) → String
+  | .ret b => toHex b
+  | .panic => "panic"
+  | .ub => "panic"
+
+def genRespCase (c : Cfg) (variant : String) (v : Val) (cap : Nat) (prior : List Byte) : String :=
+  match Gen.respBodyTy c variant with
+  | none => "bad-case"
+  | some _ => showOutcome (Gen.respSerialize c variant v cap prior)
+
+/-- oracle: status 0x00 + whole body if it fits (empty map ⇒ bare status), else 0x7F -/
+def specRespCase (c : Cfg) (variant : String) (v : Val) (cap : Nat) (_prior : List Byte) : String :=
+  match Spec.respHasBody.lookup variant with
+  | none => "bad-case"
+  | some false => if cap = 0 then "panic" else "00"
+  | some true =>
+    match (Spec.respRoles c).lookup (Gen.respRole variant) with
+    | none => "bad-case"
+    | some t =>
+      let body := encode t v
+      if cap = 0 then "panic"
+      else if body.length + 1 ≤ cap then (if body = [0xA0] then "00" else toHex (0x00 :: body))
+      else "7f"
+
+def flagByte (tbl : List (String × Nat)) (mask : Nat) : Nat :=
+  (if mask % 2 = 1 then (tbl.lookup "USER_PRESENCE").getD 0 else 0) +
+  (if mask / 2 % 2 = 1 then (tbl.lookup "USER_VERIFIED").getD 0 else 0) +
+  (if mask / 4 % 2 = 1 then (tbl.lookup "ATTESTED_CREDENTIAL_DATA").getD 0 else 0) +
+  (if mask / 8 % 2 = 1 then (tbl.lookup "EXTENSION_DATA").getD 0 else 0)
+
+def genAdatCase (c : Cfg) (flavour : String) (rp : List Byte) (mask count : Nat)
+    (acd : Option (Option Acd)) (ext : Option Val) : String :=
+  match (Gen.adExtRoles c).lookup flavour with
+  | none => "bad-case"
+  | some t =>
+    let flags := UInt8.ofNat (flagByte Gen.flagsAuthenticatorDataFlags mask)
+    match authDataSerialize Gen.c_AUTHENTICATOR_DATA_LENGTH rp flags count acd (ext.map fun v => [encode t v]) with
+    | some b => "ok " ++ toHex b
+    | none => s!"err {Gen.statusSerializeError}"
+
+def specAdatCase (c : Cfg) (flavour : String) (rp : List Byte) (mask count : Nat)
+    (acd : Option (Option Acd)) (ext : Option Val) : String :=
+  match (Spec.adExtRoles c).lookup flavour with
+  | none => "bad-case"
+  | some t =>
+    let flags := UInt8.ofNat (flagByte Spec.authDataFlags mask)
+    let acd' := match acd with | some (some a) => some (a.aaguid, a.credId, a.pubKey) | _ => none
+    match Spec.authDataExpected rp flags count acd' (ext.map fun v => encode t v) with
+    | some b => "ok " ++ toHex b
+    | none => s!"err {Spec.statusOther}"
+
 def genSource : Source :=
   { reqRoles := Gen.reqRoles, respRoles := Gen.respRoles, adExtRoles := Gen.adExtRoles,
-    reqTables := Gen.reqTables, respHasBody := fun v => Gen.respSwitch.lookup v,
-    statusSerializeError := Gen.statusSerializeError, opCase := genOpCase, vopCase := genVopCase,
+    reqTables := Gen.reqTables, respCase := genRespCase, adatCase := genAdatCase, opCase := genOpCase, vopCase := genVopCase,
     tables := fun n => if n = "status" then some Gen.statusCodes
                        else if n = "Permissions" then some Gen.flagsPermissions
                        else if n = "AuthenticatorDataFlags" then some Gen.flagsAuthenticatorDataFlags else none,
@@ -155,9 +206,7 @@ def genSource : Source :=
 
 def specSource : Source :=
   { reqRoles := Spec.reqRoles, respRoles := Spec.respRoles, adExtRoles := Spec.adExtRoles,
-    reqTables := specReqTables,
-    respHasBody := fun v => Spec.respHasBody.lookup v,
-    statusSerializeError := Spec.statusOther, opCase := specOpCase, vopCase := specVopCase,
+    reqTables := specReqTables, respCase := specRespCase, adatCase := specAdatCase, opCase := specOpCase, vopCase := specVopCase,
     tables := fun n => if n = "status" then some Spec.statusCodes
                        else if n = "Permissions" then some Spec.permissions
                        else if n = "AuthenticatorDataFlags" then some Spec.authDataFlags else none,
@@ -188,9 +237,6 @@ def showErr : DErr → String
   | .other => "err other"
   | .panic => "panic"
 
-def respRole (variant : String) : String :=
-  if variant = "GetNextAssertion" then "GetAssertion" else variant
-
 def handle (src : Source) (line : String) : String :=
   match line.trimAscii.toString.splitOn " " with
   | ["dec", cfg, ty, hex] =>
@@ -220,21 +266,29 @@ def handle (src : Source) (line : String) : String :=
         | .panic => "panic")
      | _, _ => "bad-case")
   | ["resp", cfg, variant, val, cap, prior] =>
-    (match parseCfg cfg, src.respHasBody variant, cap.toNat?, fromHex prior with
-     | some c, some hasBody, some cap, some prior =>
-       let chunks : Option (Option (List (List Byte))) :=
-         if hasBody then
-           (match (src.respRoles c).lookup (respRole variant), readVal val with
-            | some t, some v => some (some [encode t v])
-            | _, _ => none)
-         else some none
-       (match chunks with
-        | none => "bad-case"
-        | some cs =>
-          (match responseSerialize (UInt8.ofNat src.statusSerializeError) cs cap prior with
-           | .ret b => toHex b
-           | .panic => "panic"
-           | .ub => "panic"))
+    (match parseCfg cfg, cap.toNat?, fromHex prior with
+     | some c, some cap, some prior =>
+       (match (if val = "-" then some Val.unit else readVal val) with
+        | some v => src.respCase c variant v cap prior
+        | none => "bad-case")
+     | _, _, _ => "bad-case")
+  | ["adat", cfg, flavour, rp, mask, count, acd, ext] =>
+    (match parseCfg cfg, fromHex rp, mask.toNat?, count.toNat? with
+     | some c, some rp, some mask, some count =>
+       let acdv : Option (Option (Option Acd)) :=
+         if acd = "-" then some none
+         else if acd = "none" then some (some none)
+         else match acd.splitOn ":" with
+           | [a, n, seed, p] =>
+             (match fromHex a, n.toNat?, seed.toNat?, fromHex p with
+              | some a, some n, some seed, some p =>
+                some (some (some ⟨a, (List.range n).map (fun i => UInt8.ofNat ((seed + 7 * i) % 256)), p⟩))
+              | _, _, _, _ => none)
+           | _ => none
+       let extv : Option (Option Val) := if ext = "-" then some none else (readVal ext).map some
+       (match acdv, extv with
+        | some acdv, some extv => src.adatCase c flavour rp mask count acdv extv
+        | _, _ => "bad-case")
      | _, _, _, _ => "bad-case")
   | ["tbl", name] =>
     (match src.tables name with
